@@ -191,7 +191,7 @@ CHECKS["C11"] = dict(
          "transport stream, and the transport accepts nothing after its Close. Non-trivial = queued channel (enqueue arm of the select "
          "ready) or nil Close argument. Distinct by case hash.",
     required=["after-close:write:", "after-close:write1:", "after-close:writev:", "after-close:ctxwrite1:", "after-close:ctxwritev:",
-              "after-close:readfrom:", "after-close:writerwrite:", "close-arg-nil:true", "close-arg-nil:false", "kind:sync", "kind:qblock", "kind:qnonblock"],
+              "after-close:readfrom:", "after-close:writerwrite:", "after-losing-close-returned", "close-arg-nil:true", "close-arg-nil:false", "kind:sync", "kind:qblock", "kind:qnonblock"],
     assumptions=_E1_ASSUME + ["'Close has returned' is observed as: inactive delivered and no task inside Close any more"],
 )
 
